@@ -436,6 +436,9 @@ fn judge_unpaired<F: Fl>(c: &Case, l: &mut Local) {
         if na.max(nb) >= 50 * na.min(nb) {
             l.count("unpaired: very unequal sizes");
         }
+        if na + nb >= 99_990 && r.nu < 1000.0 {
+            l.count("unpaired: combined size around 100 000, small effective dof");
+        }
         if !(best.0 <= 1.0) {
             l.violation(
                 format!("Unpaired::ci|{}|{}|{}|bound-off-reference", F::TY, kind.name(), mag),
@@ -458,6 +461,12 @@ fn make_case(seed: u64, i: u64, levels: &[f64], quick: bool) -> Case {
     let fam_b: Family = if r.chance(0.5) { fam_a } else { *r.pick(&REAL_FAMILIES) };
     let j = i / 20;
     let (na, nb) = match j % 8 {
+        // combined size at or beyond the documented t -> z switch of *one* sample (100 000) while the effective dof stays
+        // small: the critical value is Student's at the effective dof whatever the sizes add up to
+        _ if j % 64 == 13 && i % 20 < 6 => {
+            let (big, small) = (r.range(99_990, 100_060) as usize, r.range(3, 9) as usize);
+            if r.bool() { (big, small) } else { (small, big) }
+        }
         0..=2 => (2 + (j / 8 % 5) as usize, 2 + (j / 40 % 5) as usize), // {2..6}^2 exhaustively
         3 | 4 => (r.range(2, 200) as usize, r.range(2, 200) as usize),
         5 => (r.range(2, 4) as usize, r.range(1000, 5000) as usize),
@@ -568,6 +577,7 @@ pub fn run(run: &Arc<Run>) {
         "unpaired: both samples constant".into(),
         "unpaired: unequal sizes".into(),
         "unpaired: very unequal sizes".into(),
+        "unpaired: combined size around 100 000, small effective dof".into(),
         "unpaired:ordinary-magnitude".into(),
         "unpaired:large-magnitude".into(),
         "unpaired: samples scaled by 2^±k (extreme finite magnitudes)".into(),
